@@ -193,6 +193,14 @@ def gen_plan(rng, index, tier):
     if cfg["linked"] and rng.random() < 0.5:
         # a hot (or cold) value assigned *through* the companion's link, keeping the link
         steps.insert(rng.randrange(1, len(steps) + 1), {"op": "setdim_link", "factor": rng.choice([0.98, 1.03]), "cold": rng.random() < 0.4})
+    if not fluidish and rng.random() < 0.3:
+        # at the end of the path the component is given another solid material (a design variant
+        # re-uses the model) and is taken to two more temperatures inside both materials' ranges
+        solids = [(n, r) for n, fl, r in mats if not fl and n != mname]
+        n2, (lo2, hi2) = solids[rng.randrange(len(solids))]
+        a, b = max(lo, lo2), min(hi, hi2)
+        if b - a > 50.0:
+            cfg["swap"] = {"to": n2, "T1": round(rng.uniform(a, b), 2), "T2": round(rng.uniform(a, b), 2)}
     return {"config": cfg, "steps": steps}
 
 
@@ -484,6 +492,30 @@ def execute(plan):
                 fail("C03.path", f"two paths to {float(c.temperatureInC)} C give different number densities of {nuc}: {float(n1[nuc])} vs {float(n2.get(nuc, 0.0))}", what="density")
                 break
         probes["path_independence_checked"] = 1
+    sw = cfg.get("swap")
+    if sw and nonzero and not fluidish:
+        from armi.materials import resolveMaterialClassByName
+
+        # the law restarts at the replacement: from there on the new material's factor governs
+        c.setTemperature(sw["T1"])
+        c.setProperties(resolveMaterialClassByName(sw["to"])())
+        mph1 = mass_per_height(c)
+        nd1 = {k: float(v) for k, v in c.getNumberDensities().items()}
+        area1 = float(c.getArea())
+        c.setTemperature(sw["T2"])
+        f12 = lin_factor(c, sw["T2"], sw["T1"])
+        tag = f"after the material was replaced by {sw['to']} at {sw['T1']} C, at {sw['T2']} C"
+        if area1 > 0 and not rel(float(c.getArea()) / area1, f12 * f12, 1e-9):
+            fail("C03.area", f"{tag}: area ratio is {float(c.getArea()) / area1}, (linear factor of the new material)^2 = {f12 * f12}", what="area-after-replacement")
+        for nuc, v in nd1.items():
+            if v > 0:
+                got = float(c.getNumberDensities().get(nuc, 0.0))
+                if not rel(got * f12 * f12, v, 1e-9):
+                    fail("C03.density", f"{tag}: number density of {nuc} is {got}, value at the replacement / factor^2 = {v / (f12 * f12)}", what="density-after-replacement")
+                break
+        if not rel(mass_per_height(c), mph1, 1e-9):
+            fail("C03.mass", f"{tag}: mass per unit height is {mass_per_height(c)}, was {mph1} at the replacement", what="mass-per-height-after-replacement")
+        probes["material_replaced_between_temperature_steps"] = 1
     probes["fluid_or_custom" if fluidish else "solid"] = 1
     if not nonzero:
         probes["material_without_composition"] = 1
